@@ -69,6 +69,10 @@ pub fn status_num(s: clock_bound_shm::ClockStatus) -> i64 {
     }
 }
 
+pub fn shm_err_pub(e: &clock_bound_shm::ShmError) -> String {
+    shm_err(e)
+}
+
 fn shm_err(e: &clock_bound_shm::ShmError) -> String {
     use clock_bound_shm::ShmError::*;
     match e {
@@ -143,6 +147,7 @@ fn main() {
             "open" => seg::cmd_open(&rest),
             "snapshot_script" => seg::cmd_snapshot_script(&rest),
             "writegen" => seg::cmd_writegen(&rest),
+            "snapshot_stall" => seg::cmd_snapshot_stall(&rest),
             "e2e" => daemon::cmd_e2e(&rest),
             "ping" => "pong".to_string(),
             _ => format!("unknown-command {}", cmd),
